@@ -67,12 +67,25 @@ pub const DEFAULT_AUTH_COOKIE_EXPIRY: u64 = 6 * 60 * 60;
 /// such that at most one keep-alive packet is in transit at any point.
 pub const KEEP_ALIVE_INTERVAL: u64 = 16;
 
+/// How far the handling of a missed keep-alive got.
+#[derive(Debug, Clone, Copy, PartialEq, Eq)]
+enum MissedKeepAlive {
+    No,
+    /// The client is to be disconnected, the disconnect packet is not queued yet.
+    Decided,
+    /// The disconnect packet is queued (and maybe partially sent).
+    Queued,
+}
+
 pub struct Connection<S, Stat, Disc, Filt, Stra, Auth, Loca> {
     stream: CipherStream<S, Aes128Cfb8Enc, Aes128Cfb8Dec>,
     buffer: Vec<u8>,
     /// Framed bytes that were not yet accepted by the stream. A frame stays queued here until it
     /// was written completely, such that dropping a pending write (select!) never tears a frame.
     unsent: Vec<u8>,
+    /// Whether the client missed its keep-alive. The verdict is recorded before the client is told,
+    /// such that it stands if the keep-alive handling is dropped (select!) while telling it.
+    keep_alive_missed: MissedKeepAlive,
 
     // adapters
     status_adapter: Arc<Stat>,
@@ -123,6 +136,7 @@ where
             stream: CipherStream::from_stream(stream),
             buffer: Vec::with_capacity(INITIAL_BUFFER_SIZE),
             unsent: Vec::new(),
+            keep_alive_missed: MissedKeepAlive::No,
             // adapters
             status_adapter,
             discovery_adapter,
@@ -177,13 +191,8 @@ where
                     if !keep_alive { continue; }
                     debug!("checking that keep-alive packet was received");
                     if self.keep_alive_id.is_some() {
-                        let reason = self.localization_adapter.localize(
-                            self.client_locale.as_deref(),
-                            "disconnect_timeout",
-                            &[]
-                        ).await?;
-                        self.send_packet(conf_out::DisconnectPacket { reason }).await?;
-                        return Err(Error::MissedKeepAlive);
+                        self.keep_alive_missed = MissedKeepAlive::Decided;
+                        return self.disconnect_missed_keep_alive().await;
                     }
                     debug!("sending next keep-alive packet");
                     let id = crypto::generate_keep_alive();
@@ -257,6 +266,17 @@ where
         // only removes what the stream accepted, so if this future is dropped half way (the keep-alive
         // handling is raced against the adapters) the rest of the frame is sent before the next one.
         self.unsent.extend_from_slice(&final_buffer);
+        self.flush_unsent().await?;
+
+        // track metrics
+        let packet_size = u64::try_from(final_buffer.len()).expect("usize always fits into u64");
+        metrics::packet_size::record_clientbound(packet_size);
+
+        Ok(())
+    }
+
+    /// Sends everything queued into the stream (cancel safe, see `send_packet`).
+    async fn flush_unsent(&mut self) -> Result<(), Error> {
         while !self.unsent.is_empty() {
             let written = self
                 .stream
@@ -268,11 +288,32 @@ where
             }
             self.unsent.drain(..written);
         }
+        Ok(())
+    }
 
-        // track metrics
-        let packet_size = u64::try_from(final_buffer.len()).expect("usize always fits into u64");
-        metrics::packet_size::record_clientbound(packet_size);
+    /// Tells the client that it missed its keep-alive (exactly once) and ends the connection. May be
+    /// called again after it was dropped half way: it continues where it stopped.
+    async fn disconnect_missed_keep_alive<T>(&mut self) -> Result<T, Error> {
+        if self.keep_alive_missed != MissedKeepAlive::Queued {
+            let reason = self
+                .localization_adapter
+                .localize(self.client_locale.as_deref(), "disconnect_timeout", &[])
+                .await?;
+            // no await can be dropped between here and the queueing of the frame in send_packet
+            self.keep_alive_missed = MissedKeepAlive::Queued;
+            self.send_packet(conf_out::DisconnectPacket { reason }).await?;
+        } else {
+            self.flush_unsent().await?;
+        }
+        Err(Error::MissedKeepAlive)
+    }
 
+    /// After the keep-alive handling was raced against an adapter: a missed keep-alive still ends the
+    /// connection, even if the adapter finished while the client was being told.
+    async fn check_keep_alive(&mut self) -> Result<(), Error> {
+        if self.keep_alive_missed != MissedKeepAlive::No {
+            return self.disconnect_missed_keep_alive().await;
+        }
         Ok(())
     }
 
@@ -562,6 +603,7 @@ where
             result = self.keep_alive() => result?,
             maybe_targets = discovery_adapter.discover() => maybe_targets?,
         };
+        self.check_keep_alive().await?;
 
         debug!("filtering targets");
         let filter_adapter = self.filter_adapter.clone();
@@ -575,6 +617,7 @@ where
                 targets,
             ) => maybe_targets?,
         };
+        self.check_keep_alive().await?;
 
         debug!("selecting target");
         let strategy_adapter = self.strategy_adapter.clone();
@@ -588,6 +631,7 @@ where
                 targets,
             ) => maybe_target?,
         };
+        self.check_keep_alive().await?;
 
         // disconnect if not target found
         let Some(target) = target else {
